@@ -595,5 +595,29 @@ def check_ssa(pid, tier, seed, scratch, replay):
     ))
 
 
+@register("C03")
+def check_ttml(pid, tier, seed, scratch, replay):
+    return codec_check(pid, tier, seed, scratch, dict(
+        name="ttml", gen_module="GenTtml", gen_cfg="GenTtml.cfg", drive_cmd="ttml", trace_module="TraceTtml", trace_cfg="TraceTtml.cfg",
+        mc=[("TtmlMC", "MC_Ttml_T.cfg", None), ("TtmlMC", "MC_Ttml_B.cfg", None), ("TtmlMC", "MC_Ttml_S.cfg", None)],
+        gens=[(dict(GEN_FAM="T"), 5, 5, None), (dict(GEN_FAM="B"), 1, 1, None), (dict(GEN_FAM="S"), 6, 6, None)],
+        nrand=(0, 0), per_jvm=1500,
+        rule=("TLC enumerates ground truths of three families - T: one paragraph x 6 instant pairs x frameRate {0,24,25,30} x tickRate "
+              "{0,1000,90000,10^7} with begin and end each written in every equivalent time-expression syntax (clock with 0-3 fraction "
+              "digits, clock with frames, offsets in h, m, s, ms, f, t); B: line structures with <br/> between or inside spans, bare "
+              "text vs spans, styled runs, one or two paragraphs; S: every style forest over <=3 styles (incl. shared parents), 0-2 regions "
+              "with style references, cue / run references, inline tts:* attributes, language (mapped / unmapped) / title / copyright, "
+              "indentation on/off, prefixed vs unprefixed attributes. Documents are concretised as XML (3 text pools with & < > quotes, "
+              "non-BMP) and read by ReadFromTTML; each truth is written by WriteToTTML with 4 indent options, parsed by the harness with "
+              "encoding/xml's token stream, decoded by the TLA+ reference decoder (time expressions resolved in 32-bit-safe exact "
+              "arithmetic) and re-read by the library. Non-trivial = distinct (truth, rendering, pool)."),
+        assumptions=["instants may differ by one nanosecond from the exact value (the library computes in float64)",
+                     "character data carries no line terminator; line structure comes from <br/> only; offsets in f / t are integers",
+                     "the reference decoder is model-checked against every rendering in the same run (TtmlMC)"],
+        nontrivial=lambda ev: True,
+        key=lambda ev: [ev["dir"], ev.get("indent"), ev["g"], ev["d"], ev["n"] % 3],
+    ))
+
+
 def selftest(pid, tier, seed, scratch, replay):
     raise Infra("selftest not implemented yet")
